@@ -26,6 +26,7 @@ class _State:
     loop: "VLoop | None" = None
     strict_us: int = 0  # strictly increasing microsecond counter (see VDTStrict)
     frozen: "datetime | None" = None  # when set, VDT.now() returns this instant (loop timers still run)
+    skew: float = 0.0  # seconds added to the wall clock (VDT.now()) only: the date moves on (a night passes) without any loop time being spent
 
 
 STATE = _State()
@@ -91,7 +92,7 @@ class VDT(datetime):
         lp = STATE.loop
         if lp is None:
             return datetime.now(tz)
-        d = STATE.frozen or (EPOCH + timedelta(seconds=lp.time()))
+        d = STATE.frozen or (EPOCH + timedelta(seconds=lp.time() + STATE.skew))
         return cls(d.year, d.month, d.day, d.hour, d.minute, d.second, d.microsecond)
 
 
@@ -105,7 +106,7 @@ class VDTStrict(VDT):
         if lp is None:
             return datetime.now(tz)
         STATE.strict_us += 1
-        d = EPOCH + timedelta(seconds=lp.time(), microseconds=STATE.strict_us)
+        d = EPOCH + timedelta(seconds=lp.time() + STATE.skew, microseconds=STATE.strict_us)
         return cls(d.year, d.month, d.day, d.hour, d.minute, d.second, d.microsecond)
 
 
@@ -186,6 +187,7 @@ def reset_library_globals() -> None:
     tr._global_sync_cycles.clear()
     STATE.strict_us = 0
     STATE.frozen = None
+    STATE.skew = 0.0
 
 
 class WallHang(KeyboardInterrupt):
